@@ -26,7 +26,9 @@ RULE = ('random histories of create_entity (0-3 components, automatic or '
         ' classes are only abc-registered with (the three query forms must'
         ' agree); the table invariants also evaluated from inside'
         " on_add/on_remove of the game sessions; the repository's own 111"
-        ' tests run under the invariants (vf/suite_monitor.py).')
+        ' tests run under the invariants (vf/suite_monitor.py).'
+        ' Round 14 added: a description populated into a world in use'
+        ' (shared with C15).')
 ANCHORS = [
     'desper/logic/world.py::World.create_entity',
     'desper/logic/world.py::World.add_component',
